@@ -22,6 +22,12 @@ try:
                         and st.targets[0].id in ("single", "opencl", "structure_factor", "have_Fq"):
                     flags[st.targets[0].id] = _ast.unparse(st.value)
             meta[f[:-3]] = flags
+    # C side: shapes of the generated units of the reference tree
+    env = dict(os.environ, SASMODELS_REPO=tmp, SA_SCRATCH=tmp)
+    code = "import json,sys; sys.path.insert(0, %r); from sa import calpha; json.dump(calpha.build_reference(), open(%r, 'w'), sort_keys=True, separators=(',', ':'))" % (
+        os.path.join(os.path.dirname(os.path.abspath(__file__)), ".."),
+        os.path.join(os.path.dirname(os.path.abspath(__file__)), "..", "sa", "refcshape.json"))
+    subprocess.check_call([sys.executable, "-c", code], env=env)
 finally:
     shutil.rmtree(tmp)
 with open(os.path.join(os.path.dirname(os.path.abspath(__file__)), "..", "sa", "refmeta.json"), "w") as fd:
